@@ -51,6 +51,7 @@ type sessionPort struct {
 	reader    chan rsResult // non-nil while a ReadSlices call is outstanding
 	lastRsErr error         // what the last ReadSlices returned, for ReadBackoff
 	holdEx    bool          // exchange channels are not read for now
+	strict    bool          // deadline calls fail on closed connections
 	lastBig   *mqtt.BigMessage
 	oldBuf    int
 	gen       int
